@@ -212,7 +212,7 @@ double GammaQint(double x, double a)
 	double gammaP;
 	double gln = GammaLn(a);
 	// How far to integrate N sqrt(a) around the peak at a-1:
-	double N	 = 10;
+	double N	 = 13;
 	double tPeak = a - 1.0;
 	double tMin	 = std::max(0.0, tPeak - N * sqrt(a));
 	double tMax	 = tPeak + N * sqrt(a);
@@ -238,7 +238,7 @@ double GammaQint(double x, double a)
 		while(t_left < x)
 		{
 			double t_right = std::min(x, t_left + sqrt(a));
-			double eps	   = Find_Epsilon(integrand, t_left, t_right, 1e-5);
+			double eps	   = Find_Epsilon(integrand, t_left, t_right, 1e-10);
 			gammaP += Integrate(integrand, t_left, t_right, eps);
 			t_left = t_right;
 		}
